@@ -293,37 +293,37 @@ From RM Require Import Proofs.SliderEventsFacts Proofs.SliderEventsIEEE.
 (* SliderEventsIter::new(..).collect() with explicit fuel (number of events
    pulled / iterations of Iterator::next's loop, and tick-loop iterations);
    Model/DrvEnc.v uses 10^6 for both *)
-Definition events_with (fuel tf : nat) (start dur vel td total : F64) (n : Z) : outcome (list EncEvent) :=
-  obind (SliderEvents.run SliderEvents.ops64 false fuel tf (SliderEvents.mkP start dur vel td total n) [])
+Definition events_with (chk : bool) (fuel tf : nat) (start dur vel td total : F64) (n : Z) : outcome (list EncEvent) :=
+  obind (SliderEvents.run SliderEvents.ops64 chk fuel tf (SliderEvents.mkP start dur vel td total n) [])
         (fun l => Done (map (fun e => mkEncEv (DrvEnc.kind_idx (SliderEvents.ev_kind e)) (SliderEvents.ev_span e)
                                               (SliderEvents.ev_time e)) l)).
 
-Lemma events_real_is : DrvEnc.events_real = events_with DrvEnc.ev_fuel DrvEnc.ev_fuel.
+Lemma events_real_is : DrvEnc.events_real = events_with false DrvEnc.ev_fuel DrvEnc.ev_fuel.
 Proof. reflexivity. Qed.
 
 (* SliderEventsIter::new(..).collect() panics only inside new(), and there
    exactly when total_dist < 0 (C20_new_panics_iff, C20_no_panic_after_new) *)
-Lemma events_with_panic fuel tf start dur vel td total n w :
+Lemma events_with_panic chk fuel tf start dur vel td total n w :
   0 <= n <= i32_max ->
-  events_with fuel tf start dur vel td total n = Panic w -> D.lt total D.zero = true.
+  events_with chk fuel tf start dur vel td total n = Panic w -> D.lt total D.zero = true.
 Proof.
   intros Hn. unfold events_with.
-  destruct (SliderEvents.run SliderEvents.ops64 false fuel tf
+  destruct (SliderEvents.run SliderEvents.ops64 chk fuel tf
               (SliderEvents.mkP start dur vel td total n) []) as [l|w'|] eqn:E; cbn [obind]; try discriminate.
   intros _.
-  pose proof (run_no_panic SliderEvents.ops64 false tf fuel
+  pose proof (run_no_panic SliderEvents.ops64 chk tf fuel
                 (SliderEvents.mkP start dur vel td total n) [] w' Hn E) as Hnew.
   pose proof (iter_new_panics_iff (SliderEvents.mkP start dur vel td total n) []) as C.
   cbn [SliderEvents.p_total] in C.
   destruct (D.lt total D.zero); [reflexivity|]. destruct C as (x & C). congruence.
 Qed.
 
-Lemma events_with_avoids_panic fuel tf start dur vel td total n :
+Lemma events_with_avoids_panic chk fuel tf start dur vel td total n :
   0 <= n <= i32_max -> nn64 total = true ->
-  avoids BPanic (events_with fuel tf start dur vel td total n).
+  avoids BPanic (events_with chk fuel tf start dur vel td total n).
 Proof.
   intros Hn Ht. apply avoids_panic_iff. intros w E.
-  pose proof (events_with_panic _ _ _ _ _ _ _ _ _ Hn E) as H. rewrite nn64_lt_zero, Ht in H. discriminate.
+  pose proof (events_with_panic _ _ _ _ _ _ _ _ _ _ Hn E) as H. rewrite nn64_lt_zero, Ht in H. discriminate.
 Qed.
 
 (* the decidable class outside of which the encoder cannot panic: the map is
@@ -347,9 +347,10 @@ Proof. vm_compute. discriminate. Qed.
 
 Section Real.
   Variable lm : Curve.Libm.
+  Variable chk : bool.
   Variables fuel tf : nat.
   Notation dreal := (DrvEnc.dist_real lm).
-  Notation ereal := (events_with fuel tf).
+  Notation ereal := (events_with chk fuel tf).
 
   Lemma fin_real h : obj_fin (dist_of_curve lm) h -> obj_fin dreal h.
   Proof.
@@ -530,23 +531,23 @@ Open Scope Z_scope.
 
 (* when SliderEventsIter::new(..).collect() runs out of fuel: the tick loop of
    a span exhausted [tf], or the stream has at least [fuel] events *)
-Theorem events_with_fuel_cases fuel tf start dur vel td total n :
+Theorem events_with_fuel_cases chk fuel tf start dur vel td total n :
   0 <= n <= i32_max ->
-  events_with fuel tf start dur vel td total n = OutOfFuel ->
+  events_with chk fuel tf start dur vel td total n = OutOfFuel ->
   let p := SliderEvents.mkP start dur vel td total n in
   SliderEvents.events_spec SliderEvents.ops64 tf p = OutOfFuel \/
   exists evs, SliderEvents.events_spec SliderEvents.ops64 tf p = Done evs /\ (fuel <= length evs)%nat.
 Proof.
   intros Hn H p. unfold events_with in H. fold p in H.
-  destruct (SliderEvents.run SliderEvents.ops64 false fuel tf p []) as [l|w|] eqn:E; cbn [obind] in H;
+  destruct (SliderEvents.run SliderEvents.ops64 chk fuel tf p []) as [l|w|] eqn:E; cbn [obind] in H;
     try discriminate.
   destruct (SliderEvents.events_spec SliderEvents.ops64 tf p) as [evs|w|] eqn:Es.
   - right. exists evs. split; [reflexivity|].
     destruct (Nat.ltb (length evs) fuel) eqn:El; [|apply Nat.ltb_ge in El; exact El].
     apply Nat.ltb_lt in El. exfalso.
-    rewrite (run_eq_spec SliderEvents.ops64 false tf fuel p [] Hn) in E; [congruence|].
+    rewrite (run_eq_spec SliderEvents.ops64 chk tf fuel p [] Hn) in E; [congruence|].
     intros evs' Ee. rewrite Es in Ee. inversion Ee; subst. exact El.
-  - exfalso. rewrite (run_eq_spec SliderEvents.ops64 false tf fuel p [] Hn) in E; [congruence|].
+  - exfalso. rewrite (run_eq_spec SliderEvents.ops64 chk tf fuel p [] Hn) in E; [congruence|].
     intros evs' Ee. rewrite Es in Ee. discriminate.
   - left. reflexivity.
 Qed.
@@ -554,13 +555,13 @@ Qed.
 (* enough fuel, explicitly: with a clamped tick distance >= 2^-k (when it is
    positive at all) every span has at most 100000 * 2^k ticks, so
    tf > 100000 * 2^k + 1  and  fuel > 3 + n * (100000 * 2^k + 1)  suffice *)
-Theorem events_with_done fuel tf start dur vel td total n k :
+Theorem events_with_done chk fuel tf start dur vel td total n k :
   0 <= n <= i32_max -> nn64 total = true -> 0 <= k <= 30 ->
   (forall tdc, D.clamp_chk td D.zero (D.min (SliderEvents.c_max_len SliderEvents.ops64) total) = Done tdc ->
                D.lt D.zero tdc = true -> is_finite tdc = true /\ (bpow radix2 (- k) <= B2R tdc)%R) ->
   100000 * 2 ^ k + 1 < Z.of_nat tf ->
   3 + n * (100000 * 2 ^ k + 1) < Z.of_nat fuel ->
-  exists evs, events_with fuel tf start dur vel td total n = Done evs.
+  exists evs, events_with chk fuel tf start dur vel td total n = Done evs.
 Proof.
   intros Hn Ht Hk Htd Htf Hfuel.
   assert (Hp2 : 0 < 2 ^ k) by (apply Z.pow_pos_nonneg; lia).
@@ -610,7 +611,7 @@ Proof.
     - exfalso. unfold D.clamp_chk, fclamp in Ec. destruct (fle _ _ _ _); discriminate. }
   destruct Hspec as (evs & Es & Hl).
   unfold events_with. fold p.
-  rewrite (run_eq_spec SliderEvents.ops64 false tf fuel p [] Hn).
+  rewrite (run_eq_spec SliderEvents.ops64 chk tf fuel p [] Hn).
   - rewrite Es. cbn [obind]. eauto.
   - intros evs' Ee. rewrite Es in Ee. inversion Ee; subst. exact Hl.
 Qed.
@@ -667,9 +668,10 @@ End Unfold.
 
 Section RealFuel.
   Variable lm : Curve.Libm.
+  Variable chk : bool.
   Variables fuel tf : nat.
   Notation dreal := (DrvEnc.dist_real lm).
-  Notation ereal := (events_with fuel tf).
+  Notation ereal := (events_with chk fuel tf).
 
   (* the tick distance the iterator ends up with is at least 2^-k, if positive *)
   Definition tick_dist_ge (k : Z) (td total : F64) : Prop :=
@@ -732,10 +734,10 @@ Section RealFuel.
     split; intros Hm.
     - rewrite (slider_events_unfold dreal ereal _ _ _ _ _ d Hc Hd).
       apply done_avoids.
-      exact (events_with_done fuel tf _ _ _ _ _ _ k Hrange (Hnn (or_introl Hm)) Hk (T0 Hm) Htf Hfuel').
+      exact (events_with_done chk fuel tf _ _ _ _ _ _ k Hrange (Hnn (or_introl Hm)) Hk (T0 Hm) Htf Hfuel').
     - rewrite (juicestream_events_unfold dreal ereal _ _ _ _ _ _ d Hc Hd).
       apply done_avoids.
-      exact (events_with_done fuel tf _ _ _ _ _ _ k Hrange (Hnn (or_intror Hm)) Hk (T2 Hm) Htf Hfuel').
+      exact (events_with_done chk fuel tf _ _ _ _ _ _ k Hrange (Hnn (or_intror Hm)) Hk (T2 Hm) Htf Hfuel').
   Qed.
 
   (* RE-ENCODING COMPLETES: a decoded map outside the negative-distance class
@@ -750,7 +752,7 @@ Section RealFuel.
   Proof.
     intros H Hn Hk Ht Htf Hfuel. pose proof (decoded_shape lm lines bv H) as Hm.
     apply encode_done; [exact Hm| |].
-    - exact (map_avoids_panic lm fuel tf bv Hm Hn).
+    - exact (map_avoids_panic lm chk fuel tf bv Hm Hn).
     - exact (map_avoids_fuel k bv Hm Hn Hk Ht Htf Hfuel).
   Qed.
 
